@@ -62,6 +62,11 @@ def creation_tasks():
     for fn in ("zeros_like", "ones_like", "empty_like", "full_like"):
         for ldt, dt, lt in itertools.product(["float64", "float32", "int32", "bool"], [None, "float32", "int8"], (True, False)):
             T.append({"task": "creation", "fn": fn, "args": [3] if fn == "full_like" else [], "kw": {} if dt is None else {"dtype": dt}, "like_dtype": ldt, "like_tensor": lt})
+        # shape= override of the prototype's shape, incl. the falsy spellings (), [] and 0; order= / subok-free keyword routes; also through numpy.<fn>(tensor)
+        for shp, lt in itertools.product([4, [4], [], 0, [0], [0, 3], [2, 2], [1]], (True, False)):
+            T.append({"task": "creation", "fn": fn, "args": [3] if fn == "full_like" else [], "kw": {"shape": shp}, "like_dtype": "float64", "like_tensor": lt})
+            T.append({"task": "creation", "fn": fn, "args": [3] if fn == "full_like" else [], "kw": {"shape": shp, "dtype": "int8"}, "like_dtype": "float32", "like_tensor": lt})
+            T.append({"task": "creation", "fn": fn, "args": [3] if fn == "full_like" else [], "kw": {"shape": shp}, "like_dtype": "float64", "like_tensor": True, "via_numpy": True})
     for args in ([5], [2, 7], [1, 10, 3], [0.0, 1.0, 0.25], [5, 0, -1], [3.0]):
         for dt in (None, "float32", "int16", "float64"):
             T.append({"task": "creation", "fn": "arange", "args": args, "kw": {} if dt is None else {"dtype": dt}})
